@@ -350,4 +350,10 @@ def inside (root q : Str) : Prop :=
   (cleanP root).rooted = (cleanP q).rooted ∧
     ∃ r, (cleanP q).segs = (cleanP root).segs ++ r ∧ dotdot ∉ r ∧ dot ∉ r ∧ [] ∉ r
 
+/-- `inside` as a function (what the driver evaluates on a string the real code opened) -/
+def insideB (root q : Str) : Bool :=
+  (cleanP root).rooted == (cleanP q).rooted &&
+    (cleanP q).segs.take (cleanP root).segs.length == (cleanP root).segs &&
+    ((cleanP q).segs.drop (cleanP root).segs.length).all (fun s => s != dotdot && s != dot && s != [])
+
 end Ecal.Path
